@@ -1,6 +1,7 @@
 package cluster
 
 import (
+	"os"
 	"errors"
 
 	"github.com/semafind/semadb/models"
@@ -86,4 +87,37 @@ func VerifDistributePoints() {
 	// an existing shard that got nothing could not take the point that was next at its turn
 	vobserve("assigned", uint64(assigned))
 	vobserve("created", uint64(created))
+}
+
+// ---- C13: a node routes over exactly the configured server set. NewNode takes the server list as
+// configured - whether or not its own name is in it (a node that has been removed from the cluster
+// is started once more with the new list to drain) - and derives its own name from host, domain
+// and port.
+func VerifNewNodeKeepsServerList() {
+	root := verifRootDir()
+	pool := []string{"a.cluster:9898", "b.cluster:9898", "c.cluster:9898"}
+	n := nondetIntRange(1, 3)
+	servers := append([]string{}, pool[:n]...)
+	host := []string{"a", "b", "c", "d"}[nondetIntRange(0, 3)] // "d": not in the list
+	c, err := NewNode(ClusterNodeConfig{RootDir: root, RpcHost: host, RpcDomain: ".cluster", RpcPort: 9898, Servers: servers,
+		ShardManager: ShardManagerConfig{RootDir: root, ShardTimeout: 30}})
+	vcover("reached")
+	vassert("node-is-created", err == nil && c != nil)
+	if err != nil || c == nil {
+		return
+	}
+	vassert("own-name-is-host-domain-port", c.MyHostname == host+".cluster:9898")
+	vassert("routing-uses-exactly-the-configured-servers", len(c.Servers) == n)
+	for i := range c.Servers {
+		if i < n {
+			vassert("routing-uses-exactly-the-configured-servers-in-order", c.Servers[i] == pool[i])
+		}
+	}
+	// and so it computes the same owner as any other node with that list
+	owner := RendezvousHash("some-user", c.Servers, 1)[0]
+	vassert("same-owner-as-the-configured-list-gives", owner == RendezvousHash("some-user", servers, 1)[0])
+	if !vsymbolic() {
+		c.nodedb.Close()
+		os.RemoveAll(root)
+	}
 }
